@@ -60,6 +60,30 @@ func playOne(c *Ctx, sym string, extra []string) Rec {
 		"panic": r.Panic, "terminated": !r.TimedOut}
 }
 
+// playSeq plays several chords in ONE run (one document) and returns the sounded keys per chord
+func playSeq(c *Ctx, syms []string, extra []string) ([][]int, bool) {
+	d := Doc{}
+	for _, s := range syms {
+		d = append(d, Inst{Deg: "1", Sym: s, Vals: one()})
+	}
+	r := c.crd(append([]string{"write"}, extra...), d.YAML())
+	f := smf.Parse(r.Stdout)
+	if r.Exit != 0 || r.TimedOut || r.Panic || len(r.Stdout) == 0 || f.Err != "" {
+		return [][]int{}, false
+	}
+	runs := [][]int{}
+	cur := []int{}
+	for _, e := range f.Events {
+		if e.Kind == smf.KindOn && e.B > 0 {
+			cur = append(cur, e.A)
+		} else if len(cur) > 0 && (e.Kind == smf.KindOff || (e.Kind == smf.KindOn && e.B == 0)) {
+			runs = append(runs, cur)
+			cur = []int{}
+		}
+	}
+	return runs, true
+}
+
 func builtinChordList(c *Ctx) ([]yChordDef, bool) {
 	r := c.crd([]string{"info", "chord", "list"}, nil)
 	var list []yChordDef
@@ -79,6 +103,8 @@ func init() {
 			for _, b := range list {
 				cases = append(cases, Case{"cmd": "builtin", "name": b.Name, "display": b.Meta.Display})
 			}
+			// all built-ins in one document, interleaved and repeated (chords must not influence each other)
+			cases = append(cases, Case{"cmd": "builtinseq", "seed": c.Seed})
 			// hand-picked dictionaries
 			hand := []Case{
 				{"cmd": "userdict", "attrs": []UAttr{{"Perfect5", "bb5"}}, "chords": []UChord{{"U1", "u1", []string{"Perfect1", "Perfect5"}, ""}}},                                             // attribute override: later wins
@@ -158,6 +184,23 @@ func init() {
 					cl = append(cl, Rec{"name": chars(b.Name), "display": chars(b.Meta.Display)})
 				}
 				return []Rec{{"kind": "chordlist", "ok": ok, "chords": cl}}
+			case "builtinseq":
+				list, _ := builtinChordList(c)
+				keys := []string{}
+				for rep := 0; rep < 3; rep++ {
+					for _, b := range list {
+						keys = append(keys, b.Name, b.Meta.Display)
+					}
+				}
+				rng := rand.New(rand.NewSource(int64(ci(k, "seed"))))
+				rng.Shuffle(len(keys), func(a, b int) { keys[a], keys[b] = keys[b], keys[a] })
+				runs, ok := playSeq(c, keys, nil)
+				bn := []Rec{}
+				for _, b := range list {
+					bn = append(bn, Rec{"name": chars(b.Name), "display": b.Meta.Display})
+				}
+				return []Rec{{"kind": "userdict", "sub": "builtinseq", "uattrs": []Rec{}, "uchords": []Rec{}, "bnames": bn, "uses": []Rec{},
+					"seqOk": ok, "seqKeys": strsChars(keys), "seqOns": runs}}
 			case "builtin":
 				a := playOne(c, cs(k, "name"), nil)
 				b := playOne(c, cs(k, "display"), nil)
@@ -217,7 +260,19 @@ func init() {
 				for _, ch := range uc {
 					rc = append(rc, Rec{"name": chars(ch.Name), "display": chars(ch.Display), "attrs": strsChars(ch.Attrs), "extends": chars(ch.Extends)})
 				}
-				return []Rec{{"kind": "userdict", "uattrs": ra, "uchords": rc, "bnames": bn, "uses": uses}}
+				// the same symbols in one run, interleaved and repeated
+				seqKeys := []string{}
+				for rep := 0; rep < 2; rep++ {
+					for _, u := range uses {
+						ks := ""
+						for _, x := range u["key"].([]int) {
+							ks += string(rune(x))
+						}
+						seqKeys = append(seqKeys, ks)
+					}
+				}
+				runs, sok := playSeq(c, seqKeys, extra)
+				return []Rec{{"kind": "userdict", "uattrs": ra, "uchords": rc, "bnames": bn, "uses": uses, "seqOk": sok, "seqKeys": strsChars(seqKeys), "seqOns": runs}}
 			}
 			return nil
 		},
